@@ -450,13 +450,19 @@ func (in *icInst) check(c *mc.Ctx, o icOracle, prop string, path []string) {
 		if len(st.exp) == 0 && len(res.Meta.MultiTxCounter) != 0 {
 			bad("multitx-entry-in-empty-block", "empty block carries multi-tx notifications %v", res.Meta.MultiTxCounter)
 		}
-		// what the router hands to the pier of each chain for this block (the real
-		// InterchainRouter.GetInterchainTxWrappers over the replica's ledger) must be exactly
-		// the transactions the block's delivery set lists for that chain, in that order
-		icChains := []string{fix.ChainA, fix.ChainB, fix.ChainC}
+	}
+	// what the router hands to the pier of each chain for this block (the real
+	// InterchainRouter.GetInterchainTxWrappers over the replica's ledger) must be exactly
+	// the transactions the block's delivery set lists for that chain, in that order, and the
+	// timeout / group-rollback notifications the block lists for it
+	if o.verdicts || o.timeout {
+		icChains := []string{fix.ChainA, fix.ChainB, fix.ChainC, contracts.DEFAULT_UNION_PIER_ID}
 		view := icRouterView(r, st.height, icChains)
 		icCheckRouterView(c, view, st.height, res.Meta, icChains, bad)
 		for _, chain := range icChains {
+			if !o.verdicts {
+				break
+			}
 			got := view[chain].txs
 			if view[chain].err != nil {
 				continue
